@@ -1,4 +1,8 @@
-(* C09 driver. Answer line: <model>\t<spec>\t<classes> *)
+(* C09 driver. Answer line: <model>\t<spec>\t<classes>
+   The model is the REPAIRED code (fixes/C09-deterministic-order.diff): `fx` below selects the variant of merge_ws /
+   best_match; fx = false is the code before the repair (kept in Coq with its refutations). *)
+let fx = true
+
 let split_list s = if s = "-" || s = "" then [] else String.split_on_char ',' s
 let uniq l = List.sort_uniq compare l
 let set_s l = "{" ^ String.concat "|" (uniq l) ^ "}"
@@ -13,66 +17,106 @@ let parse_items s : (n list * gvar) list =
 
 let var_s (v : gvar) = hex_of_bytes v.gv_file ^ "@" ^ string_of_int (int_of_n v.gv_line)
 
-let classes_of qs items =
-  let c1 = if List.exists (fun q -> no_least q items) qs then ["no_least"] else [] in
-  let c2 = if List.exists (fun q -> multi_owner q items) qs then ["multi_owner"] else [] in
-  match c1 @ c2 with [] -> "-" | l -> String.concat "," l
+(* the two-level Go map the items stand for: keys in order of first appearance, one file's globals in the order
+   given (the generator emits every (file, name) once: map_shaped is checked) *)
+let files_of items =
+  List.rev (List.fold_left (fun acc (_, v) -> if List.mem v.gv_file acc then acc else v.gv_file :: acc) [] items)
+let globals_of items k = List.filter (fun (_, v) -> v.gv_file = k) items
 
-(* the winner the property can demand: the least owner; "?" when the definitions do not determine one *)
+(* the winner the property can demand independently of the model: the least owner (it wins in every order,
+   C09_merge_perm_least / C09_merge_fixed_least); "?" when the definitions do not determine one *)
 let spec_winner q items =
   match vars_of q items with
   | [] -> "-"
   | l -> (match least_of l with Some x -> var_s x | None -> "?")
 
+(* the loop body of generateAllGlobalMaps replayed in the order given (the primitives are the same before and after
+   the repair): correspondence of JudgeShouldInsertGlobalInfo / InsertThirdGlobalGMaps / FindThirdGlobalGInfo with
+   `merge`; spec: a least owner wins whatever the order, otherwise no demand on an order the repaired code never takes *)
 let () = register "c09.merge" (fun line ->
   match split_ws line with
   | [qs; its] ->
     let qh = split_list qs in
     let items = parse_items its in
     let t = merge items in
-    let m = String.concat ";" (List.map (fun q ->
-      q ^ "=" ^ (match winner t (bytes_of_hex q) with Some v -> var_s v | None -> "-")) qh) in
-    let s = String.concat ";" (List.map (fun q -> q ^ "=" ^ spec_winner (bytes_of_hex q) items) qh) in
-    m ^ "\t" ^ s ^ "\t" ^ classes_of (List.map bytes_of_hex qh) items
+    let ans q = match winner t (bytes_of_hex q) with Some v -> var_s v | None -> "-" in
+    let m = String.concat ";" (List.map (fun q -> q ^ "=" ^ ans q) qh) in
+    let s = String.concat ";" (List.map (fun q ->
+      let w = spec_winner (bytes_of_hex q) items in q ^ "=" ^ (if w = "?" then ans q else w)) qh) in
+    m ^ "\t" ^ s ^ "\t-"
   | _ -> "BAD-CASE")
 
-(* the real generateAllGlobalMaps visits in map order: the model answers the set of possible winners
-   (C09_merge_winner_minimal: every winner is minimal; every minimal definition wins when visited first) *)
+(* the real generateAllGlobalMaps, repeated over freshly built Go maps: the repaired code visits the files in sorted
+   order, so the set of winners seen must be the SINGLETON the model computes (C09_merge_perm_full); before the repair
+   it was any element of minimal_set *)
 let () = register "c09.genmaps" (fun line ->
   match split_ws line with
   | [qs; its] ->
     let qh = split_list qs in
     let items = parse_items its in
-    let m = String.concat ";" (List.map (fun q ->
-      q ^ "=" ^ set_s (List.map var_s (minimal_set (vars_of (bytes_of_hex q) items)))) qh) in
+    let files = files_of items in
+    let g = globals_of items in
+    if not (map_shaped g files) then "BAD-CASE not map shaped" else
+    let t = merge_ws fx g files in
+    let ans q =
+      if fx then (match winner t (bytes_of_hex q) with Some v -> "{" ^ var_s v ^ "}" | None -> "{}")
+      else set_s (List.map var_s (minimal_set (vars_of (bytes_of_hex q) items))) in
+    let m = String.concat ";" (List.map (fun q -> q ^ "=" ^ ans q) qh) in
     let s = String.concat ";" (List.map (fun q ->
       let w = spec_winner (bytes_of_hex q) items in
-      q ^ "=" ^ (if w = "-" then "{}" else if w = "?" then "?" else "{" ^ w ^ "}")) qh) in
-    m ^ "\t" ^ s ^ "\t" ^ classes_of (List.map bytes_of_hex qh) items
+      q ^ "=" ^ (if w = "-" then "{}" else if w = "?" then (if fx then ans q else "?") else "{" ^ w ^ "}")) qh) in
+    m ^ "\t" ^ s ^ "\t-"
   | _ -> "BAD-CASE")
 
+(* GetBestMatchReferFile over freshly built maps: a singleton after the repair (C09_best_match_perm_full) *)
 let () = register "c09.bestmatch" (fun line ->
   match split_ws line with
   | [curh; referh; fs] ->
     let cur = bytes_of_hex curh and refer = bytes_of_hex referh in
     let files = List.map bytes_of_hex (split_list fs) in
     let st = idx_run (List.map (fun p -> Ins p) files) in
-    let bs = best_set cur refer st in
+    let bs = best_set_fx fx cur refer st in
     let m = "best=" ^ set_s (List.map hex_of_bytes bs) in
     let nb = List.length (uniq bs) in
     let s = if nb <= 1 then m else "best=?" in
-    m ^ "\t" ^ s ^ "\t" ^ (if nb > 1 then "tie" else "-")
+    (* tie = several best-scored candidates: the path decides (evidence only, not a finding any more) *)
+    let tied = List.length (uniq (best_set cur refer st)) > 1 in
+    m ^ "\t" ^ s ^ "\t" ^ (if nb > 1 then "tie" else if tied then "tie_by_path" else "-")
   | _ -> "BAD-CASE")
 
-(* case: "<root> <nruns> <files> <items>": the last column declares which file defines which global where
-   (written by the generator together with the sources); the model predicts instability from it *)
+(* case: "<root> <nruns> <files> <items>": whole analyses of a real directory, repeated: after the repair every
+   workspace is stable, the tie workspaces included *)
 let () = register "c09.project" (fun line ->
   match split_ws line with
   | [_; _; _; its] ->
     let items = parse_items its in
     let names = uniq (List.map fst items) in
-    let unstable = List.exists (fun q -> no_least q items) names in
-    (if unstable then "{STABLE|UNSTABLE}" else "{STABLE}") ^ "\t{STABLE}\t" ^ (if unstable then "no_least_ws" else "-")
+    let tie = List.exists (fun q -> no_least q items) names in
+    if fx then "{STABLE}\t{STABLE}\t" ^ (if tie then "tie_ws" else "-")
+    else (if tie then "{STABLE|UNSTABLE}" else "{STABLE}") ^ "\t{STABLE}\t" ^ (if tie then "no_least_ws" else "-")
+  | _ -> "BAD-CASE")
+
+(* case: "<nreps> <features> <scripted session>": the real server, one fresh process per run. The only declared
+   feature so far: dupclass = the same ---@class / ---@alias name is defined in several files with different content;
+   rebuidCreateTypeMap (check_all.go) merges the per-file lists while ranging over fileStructMap and the consumers
+   take the first element, so hover / definition of a field vary between fresh starts (finding C09-class-order, open;
+   fixes/C09-class-order.diff sorts the files there: set fixed_class_order when it is committed) *)
+let fixed_class_order = false
+(* second declared feature: manysyms = a workspace/symbol query with more than 200 matches (the result is cut at
+   maxSymbols after a sort on the score alone: finding C09-symbol-cut, open; fixes/C09-symbol-order.diff) *)
+let fixed_symbol_order = false
+(* third declared feature: manyrefs = a references query with more hits than ReferenceMaxNum (the list is cut in the
+   completion order of the worker goroutines: finding C09-references-cut, open; fixes/C09-references-cut.diff) *)
+let fixed_references_cut = false
+let () = register "c09.srvrep" (fun line ->
+  match split_ws line with
+  | _ :: feats :: _ ->
+    let fl = split_list feats in
+    let cls = (if List.mem "dupclass" fl && not fixed_class_order then ["dup_class"] else [])
+            @ (if List.mem "manysyms" fl && not fixed_symbol_order then ["many_symbols"] else [])
+            @ (if List.mem "manyrefs" fl && not fixed_references_cut then ["many_references"] else []) in
+    if cls <> [] then "{STABLE|UNSTABLE}\t{STABLE}\t" ^ String.concat "," cls
+    else "{STABLE}\t{STABLE}\t-"
   | _ -> "BAD-CASE")
 
 let () = main ()
